@@ -140,7 +140,15 @@ def run_case(case):
     if not torch.isfinite(val):
         return {"violations": V, "counters": C, "fingerprint": None, "sample": None}
     if val.requires_grad:
-        val.backward()
+        try:
+            val.backward()
+        except (RuntimeError, NotImplementedError) as ex:
+            # raised by the autograd engine while differentiating the value the library returned (an in-place update of a tensor
+            # needed for the backward pass, an operation without a derivative): no gradient at all
+            import re
+
+            V.append(tt.viol("C12:backward-raises:%s:%s:%s" % (g["name"], e, type(ex).__name__), "%s/%s: back-propagating from the returned value raises %s: %s" % (g["name"], e, type(ex).__name__, re.sub(r"\s+", " ", str(ex))[:160]), case=case))
+            return {"violations": V, "counters": C, "fingerprint": None, "sample": None}
     grads = {pid: (None if dic[pid].grad is None else dic[pid].grad.detach().clone().numpy()) for pid in leaves}
     base = {pid: dic[pid].tensor.detach().clone() for pid in leaves}
     for pid in leaves:
